@@ -253,7 +253,7 @@ def jobs(tier):
                      'is_more_specific replaced by a stub whose body is its contract: precondition asserted, result = uninterpreted dom(a, b) (pure function of the two definitions)'],
             assumptions=['dom irreflexive and asymmetric (proved from is_more_specific\'s postcondition by job specificity/dom-lemmas); NOT assumed transitive',
                          'candidates are pairwise distinct pointers'],
-            extracted=[ex], replay=replay, timeout=900,
+            extracted=[ex], replay=replay, timeout=900 if nc <= 4 else 2700,
             props=['C01', 'C02', 'C03', 'C06'])
     j.nc = nc
     return [j] + out_lemma
